@@ -5,4 +5,8 @@ PROP_ASSUMPTIONS = {
         "Model.isVariableUsageAllowed is hand-written; tied to validation/variable.rs by exhaustive correspondence (hook + public validation of minimal documents)",
         "schema.is_subtype is an abstract relation parameter in the theorem; the harness reads the real relation off the schema",
     ],
+    "C23": [
+        "Model/Coordinate.lean is a hand-written mirror of coordinate.rs (split_once/strip_prefix/or_else cascade, Display, lookup); tied by correspondence",
+        "IndexMap::get modelled as List.lookup; Name bytes vs chars equivalence exercised with non-ASCII input",
+    ],
 }
